@@ -1070,6 +1070,9 @@ class DocutilsRenderer(RendererProtocol):
                 line=token_line(token, default=0),
                 append_to=self.current_node,
             )
+            if explicit:
+                # keep the explicit link text in the document
+                self.render_children(token)
             return
         if len(matches) > 1:
             show_num = 3
